@@ -12,6 +12,7 @@ and name patching, as the test-suite itself does with mock.patch.
 import sys, os, io, json, threading, queue as _queue, contextlib
 
 sys.dont_write_bytecode = True
+REAL_STDOUT = sys.stdout
 REPO = os.environ.get("VERIF_REPO", "/repo")
 sys.path.insert(0, REPO)
 
@@ -300,6 +301,7 @@ def run_session(case):
         def prompt(self, args=None):
             if self.spec[6]:
                 return None
+            U(18, [self.i, args or 0, st["nih"]])
             return super().prompt(args)
 
         def input(self, args, key):
@@ -373,6 +375,12 @@ def run_session(case):
     orig_start_input = IT.InputThreadManager.start_input_thread
     orig_print_new = IT.InputThreadManager._print_new_prompt
     orig_blocking = IM.InputManager.get_input_blocking
+    orig_process = IM.InputManager._process_input
+
+    def process(self, key):
+        r = orig_process(self, key)
+        U(19, [scr_id[id(self._ui_screen)], {0: 0, 5: 1, 6: 2, 7: 3, -1: 4}[r.value]])
+        return r
 
     def ih_init(self, callback=None, source=None):
         ih_id[id(self)] = st["nih"]; st["nih"] += 1; keep.append(self)
@@ -430,7 +438,7 @@ def run_session(case):
                (IT.InputRequest, "start_thread", start_thread),
                (IT.InputThreadManager, "start_input_thread", start_input),
                (IT.InputThreadManager, "_print_new_prompt", staticmethod(print_new)),
-               (IM.InputManager, "get_input_blocking", blocking),
+               (IM.InputManager, "get_input_blocking", blocking), (IM.InputManager, "_process_input", process),
                (ML, "EventQueue", LoggedEQ), (SS, "ScreenData", SD)]
     saved = [(o, n, o.__dict__[n]) for o, n, _ in patches]
     for o, n, v in patches:
@@ -497,9 +505,9 @@ def main():
         t = threading.Thread(target=go, daemon=True)
         t.start(); t.join(float(os.environ.get("VERIF_CASE_TIMEOUT", "8")))
         if t.is_alive():
-            sys.stdout.write(json.dumps(["HANG"]) + "\n"); sys.stdout.flush()
+            REAL_STDOUT.write(json.dumps(["HANG"]) + "\n"); REAL_STDOUT.flush()
             os._exit(3)
-        sys.stdout.write(json.dumps(res["r"]) + "\n"); sys.stdout.flush()
+        REAL_STDOUT.write(json.dumps(res["r"]) + "\n"); REAL_STDOUT.flush()
 
 
 if __name__ == "__main__":
